@@ -239,3 +239,44 @@ def reads_of_self(model, cls, node, selfname="self", depth=2, _seen=None):
             if s is not None and s in params:
                 out.add(s)
     return out
+
+
+# ----------------------------------------------------------------------------
+# one level of helper inlining for anchor checks
+# ----------------------------------------------------------------------------
+
+
+def callee(model, mod, cls, call):
+    """FunctionDef (and its module, class) of `self.m(...)` / `cls.m(...)` / `func(...)` / `Class.m(...)` if defined in the repo."""
+    f = call.func
+    if isinstance(f, ast.Attribute) and isinstance(f.value, ast.Name) and f.value.id in ("self", "cls") and cls is not None:
+        m = cls.provider(f.attr)
+        if m is not None and m.kind != "attr":
+            return m.cls.module, m.cls, m.node
+    if isinstance(f, ast.Name):
+        r = model.resolve_name(mod, f.id)
+        if r is not None and r[0] == "func":
+            return r[1], None, r[2]
+    if isinstance(f, ast.Attribute) and isinstance(f.value, ast.Name):
+        r = model.resolve_name(mod, f.value.id)
+        if r is not None and r[0] == "class":
+            m = r[1].provider(f.attr)
+            if m is not None and m.kind != "attr":
+                return m.cls.module, m.cls, m.node
+    return None
+
+
+def closure_text(model, mod, cls, node, depth=1, _seen=None):
+    """source text of node plus the bodies of repo functions it calls (to the given depth): anchor checks phrased as
+    'the code mentions X' stay true when a few lines are extracted into a private helper."""
+    _seen = _seen if _seen is not None else set()
+    out = [ast.unparse(node)]
+    if depth <= 0:
+        return out[0]
+    for c in ast.walk(node):
+        if isinstance(c, ast.Call):
+            t = callee(model, mod, cls, c)
+            if t is not None and id(t[2]) not in _seen:
+                _seen.add(id(t[2]))
+                out.append(closure_text(model, t[0], t[1], t[2], depth - 1, _seen))
+    return "\n".join(out)
